@@ -517,35 +517,47 @@ def rule_memo_sentinel(chk, rid):
 
 
 # --------------------------------------------------------------------------- C14 component boundary everywhere
-def rule_prefix_tests_at_boundary(chk, rid):
+def rule_prefix_tests_at_boundary(chk, rid, all_stores=False):
     repo = chk.repo
-    chk.rule(rid, "every prefix test between a key and a mount prefix / route in MountPointStore is made at a component boundary "
-                  "(`x.startswith(y + '/')`, or y extended with '/' before the test)")
-    mod = repo.module(STORE)
-    ci = repo.cls(STORE, "MountPointStore")
+    chk.rule(rid, ("every prefix test between two keys in a store class (liquer.store, liquer.recipes) " if all_stores else
+                   "every prefix test between a key and a mount prefix / route in MountPointStore ") +
+                  "is made at a component boundary (`x.startswith(y + '/')`, or y extended with '/' before the test)")
+    if all_stores:
+        cis = [ci for (mn, cn), ci in sorted(repo._classes.items()) if mn in (STORE, "liquer.recipes")]
+        repo.module(STORE)
+        repo.module("liquer.recipes")
+    else:
+        cis = [repo.cls(STORE, "MountPointStore")]
     n = 0
-    for mn, fn in ci.methods.items():
-        cfg = None
-        for c in calls_in(fn, tail="startswith"):
-            if not c.args:
-                continue
-            a = c.args[0]
-            n += 1
-            ok = False
-            if isinstance(a, ast.BinOp) and isinstance(a.op, ast.Add) and isinstance(a.right, ast.Constant) and a.right.value == "/":
-                ok = True
-            elif isinstance(a, ast.Name):
-                ext = [s for s in body_walk(fn) if isinstance(s, ast.AugAssign) and U(s.target) == a.id and U(s.value) == "'/'"]
-                if ext:
-                    cfg = cfg or CFG(fn)
-                    ok = any(cfg.can_reach(cfg.node_of(s), cfg.node_of(c)) for s in ext)
-                # generator variable over the list of already extended prefixes
-                for gen in ast.walk(fn):
-                    if isinstance(gen, ast.comprehension) and U(gen.target) == a.id and U(gen.iter) == "prefixes":
+    for ci in cis:
+        mod = ci.module
+        for mn, fn in ci.methods.items():
+            cfg = None
+            for c in calls_in(fn, tail="startswith"):
+                if not c.args or isinstance(c.args[0], ast.Constant):
+                    continue
+                a = c.args[0]
+                n += 1
+                ok = False
+                slashed = lambda e: isinstance(e, ast.BinOp) and isinstance(e.op, ast.Add) and isinstance(e.right, ast.Constant) and e.right.value == "/"
+                if slashed(a):
+                    ok = True
+                elif isinstance(a, ast.Name):
+                    ext = [s for s in body_walk(fn) if isinstance(s, ast.AugAssign) and U(s.target) == a.id and U(s.value) == "'/'"]
+                    if ext:
+                        cfg = cfg or CFG(fn)
+                        ok = any(cfg.can_reach(cfg.node_of(s), cfg.node_of(c)) for s in ext)
+                    # every definition of the name in this function is `<expr> + '/'`
+                    defs = [s for s in body_walk(fn) if isinstance(s, ast.Assign) and any(U(t) == a.id for t in s.targets)]
+                    if defs and all(slashed(d.value) for d in defs) and a.id not in params(fn):
                         ok = True
-            chk.ob(rid, f"{ci.qual}.{mn}", ok, f"`{U(c)}` tests at a component boundary" if ok else
-                   f"`{U(c)}` is a raw string-prefix test: `dat` matches the mount `data`, `model` matches `models/v1`", c, mod, key=f"boundary:{U(c)[:40]}")
-    chk.floor(rid, n, 5, "prefix tests")
+                    # generator variable over the list of already extended prefixes
+                    for gen in ast.walk(fn):
+                        if isinstance(gen, ast.comprehension) and U(gen.target) == a.id and U(gen.iter) == "prefixes":
+                            ok = True
+                chk.ob(rid, f"{ci.qual}.{mn}", ok, f"`{U(c)}` tests at a component boundary" if ok else
+                       f"`{U(c)}` is a raw string-prefix test: `dat` matches `data`, `logs/app` matches `logs/app2/x`", c, mod, key=f"boundary:{U(c)[:40]}")
+    chk.floor(rid, n, 12 if all_stores else 5, "prefix tests")
 
 
 # --------------------------------------------------------------------------- C15 recursion through the overlay's own view
@@ -912,3 +924,97 @@ def rule_regex_action_agreement(chk, rid):
                f"action pattern {pats[0]!r} does not consume {bad} which the token pattern accepts: the name is truncated / the segment becomes the unnamed one",
                fn, m, key=f"agree:{rule}")
     chk.floor(rid, n, 2, "token/action regex pairs")
+
+
+# =========================================================================== rules added after the fourth seeding round
+def rule_keystream_length(chk, rid):
+    """XORFileCache: the key stream handed to the XOR has exactly the payload's length on every path (numpy broadcasting raises
+    otherwise, and the failed store leaves a `ready` state file without data: the entry is never served and every prefix is
+    re-executed). Accepted idioms, enumerated: `self.code[:n]` under `n <= len(self.code)`; `np.tile(self.code, K)[:n]` with
+    K = int(n / len(self.code)) + 1 (or n // len(self.code) + 1); `np.resize(self.code, n)`."""
+    repo = chk.repo
+    chk.rule(rid, "XOR key stream has the payload's length: every return of XORFileCache.code_of_length(n) is a prefix slice `[:n]` of "
+                  "something at least n long (the key under `n <= len(key)`, or the key tiled int(n/len)+1 times), and encode asks for len(payload)")
+    m = repo.module("liquer.cache")
+    fn = repo.func("liquer.cache", "XORFileCache.code_of_length")
+    C = "liquer.cache.XORFileCache.code_of_length"
+    p = params(fn)[1]
+    cfg = CFG(fn)
+    rets = returns_of(fn)
+    chk.floor(rid, len(rets), 1, "returns of code_of_length")
+    for i, r in enumerate(rets):
+        v = r.value
+        ok, why = False, f"returns `{U(v)[:60]}`"
+        if isinstance(v, ast.Call) and call_name(v) == "np.resize" and len(v.args) == 2 and U(v.args[0]) == "self.code" and U(v.args[1]) == p:
+            ok = True
+        elif isinstance(v, ast.Subscript) and isinstance(v.slice, ast.Slice) and v.slice.lower is None and v.slice.step is None \
+                and v.slice.upper is not None and U(v.slice.upper) == p:
+            base = v.value
+            if U(base) == "self.code":
+                lits = dominating_literals(cfg, cfg.node_of(r))
+                ok = any((t in (f"{p} <= len(self.code)", f"len(self.code) >= {p}") and pol is True) or
+                         (t in (f"{p} > len(self.code)", f"len(self.code) < {p}") and pol is False) for _, t, pol, _ in lits)
+                why += "" if ok else f": the key itself is long enough only under `{p} <= len(self.code)`"
+            elif isinstance(base, ast.Call) and call_name(base) == "np.tile" and len(base.args) == 2 and U(base.args[0]) == "self.code":
+                k = U(base.args[1]).replace(" ", "")
+                ok = k in (f"int({p}/len(self.code))+1", f"{p}//len(self.code)+1", f"1+int({p}/len(self.code))", f"1+{p}//len(self.code)")
+                why += "" if ok else f": {k} repetitions do not cover {p} bytes for every {p}"
+        else:
+            why += f": not a prefix slice `[:{p}]` - its length differs from the payload's"
+        chk.ob(rid, C, ok, why, r, m, key=f"return:{i}")
+    enc = repo.func("liquer.cache", "XORFileCache.encode")
+    b = params(enc)[1]
+    cs = [c for c in calls_in(enc, tail="code_of_length")]
+    ok = len(cs) == 1 and len(cs[0].args) == 1 and U(cs[0].args[0]) in (f"len({b})", "len(ba)")
+    chk.ob(rid, "liquer.cache.XORFileCache.encode", ok, f"asks for a key stream of len({b})", cs[0] if cs else enc, m, key="request")
+
+
+def rule_prefix_test_direction(chk, rid):
+    """MountPointStore: a routing question (route_to) asks which mount the *queried key* lies below - the key is the receiver of the
+    prefix test; a directory question (is_dir fallback, listdir) asks which mounts / entries lie below the queried key - the iterated
+    entry is the receiver and the key (+ '/') the argument. Table confirmed by reading; swapping receiver and argument keeps every
+    test at a component boundary but answers the opposite question."""
+    repo = chk.repo
+    chk.rule(rid, "direction of prefix tests in MountPointStore: route_to tests `key.startswith(<mount>)`; is_dir and listdir test "
+                  "`<mount or entry>.startswith(key + '/')` (mount points and their parents appear as directories)")
+    mod = repo.module(STORE)
+    ci = repo.cls(STORE, "MountPointStore")
+    TABLE = {"route_to": "param", "is_dir": "entry", "listdir": "entry"}
+    n = 0
+    for mn, want in TABLE.items():
+        fn = ci.methods.get(mn)
+        if fn is None:
+            raise AnalysisError(f"MountPointStore.{mn} not found")
+        kp = params(fn)[1]
+        loopvars = set()
+        for f in ast.walk(fn):
+            if isinstance(f, (ast.For, ast.comprehension)):
+                t = f.target
+                for e in (t.elts if isinstance(t, ast.Tuple) else [t]):
+                    if isinstance(e, ast.Name):
+                        loopvars.add(e.id)
+        # locals derived from the key parameter (e.g. dir_key = key + '/') count as the key
+        derived = {kp}
+        for s in body_walk(fn):
+            if isinstance(s, ast.Assign) and len(s.targets) == 1 and isinstance(s.targets[0], ast.Name) \
+                    and kp in {x.id for x in ast.walk(s.value) if isinstance(x, ast.Name)} and not (loopvars & {x.id for x in ast.walk(s.value) if isinstance(x, ast.Name)}):
+                derived.add(s.targets[0].id)
+        found = 0
+        for c in calls_in(fn, tail="startswith"):
+            if not c.args or isinstance(c.args[0], ast.Constant) or not isinstance(c.func.value, ast.Name):
+                continue
+            recv = c.func.value.id
+            argnames = {x.id for x in ast.walk(c.args[0]) if isinstance(x, ast.Name)}
+            rk = "param" if recv in derived else "entry" if recv in loopvars else "?"
+            ak = "param" if argnames & derived else "entry" if argnames & loopvars else "?"
+            if "?" in (rk, ak) or rk == ak:
+                continue
+            found += 1
+            n += 1
+            ok = rk == want
+            chk.ob(rid, f"{ci.qual}.{mn}", ok, f"`{U(c)}`: " + ("the queried key is tested against each mount" if want == "param" else "each mount / entry is tested for lying below the queried key")
+                   if ok else f"`{U(c)}` asks whether the " + ("mount lies below the key" if want == "param" else "key lies below a mount") +
+                   f" - the opposite of what {mn} needs (" + ("routing" if want == "param" else "parents of mount points are directories") + ")",
+                   c, mod, key=f"direction:{mn}")
+        chk.ob(rid, f"{ci.qual}.{mn}", found >= 1, f"{found} key/mount prefix test(s) in {mn}", fn, mod, key=f"present:{mn}", nontrivial=False)
+    chk.floor(rid, n, 3, "directed prefix tests")
